@@ -970,12 +970,13 @@ def rec_envcopy(tier, seed, recs):
 # ---- checkpoints ---------------------------------------------------------------------------
 def ckpt_cases(tier):
     quick = tier == "quick"
-    cases = [("REINFORCE", "rollout", "tsp"), ("REINFORCE", "exponential", "cvrp")]
+    # (POMO: a multi-start model -- its policy carries "multistart_..." decode types that must survive the round trip)
+    cases = [("REINFORCE", "rollout", "tsp"), ("REINFORCE", "exponential", "cvrp"), ("POMO", "shared", "tsp")]
     if not quick:
         # (baseline="rollout_only" cannot be trained at all: wrap_dataset runs before the baseline is set up)
         cases += [("REINFORCE", "no", "tsp"), ("REINFORCE", "mean", "tsp"), ("REINFORCE", "critic", "tsp"),
                   ("REINFORCE", "rollout-instance", "tsp"), ("AttentionModel", "rollout", "cvrp"),
-                  ("AttentionModel", "exponential", "op"), ("POMO", "shared", "tsp")]
+                  ("AttentionModel", "exponential", "op"), ("POMO", "shared", "cvrp")]
     return cases
 
 
@@ -1029,16 +1030,28 @@ def sd_equal(a, b):
     for k in sa:
         if not tensors_equal(sa[k], sb[k]) or sa[k].dtype != sb[k].dtype:
             return False, "parameter %s differs" % k
+    for k in ("train_decode_type", "val_decode_type", "test_decode_type"):
+        if getattr(a, k, None) != getattr(b, k, None):
+            return False, "%s %r became %r" % (k, getattr(a, k, None), getattr(b, k, None))
     return True, ""
 
 
 def policy_solutions(pol, env, td):
+    """greedy solutions, and the solutions of the policy's OWN test-phase decoding (its stored decode type, e.g.
+    multistart_greedy for POMO), both as (actions, reward bits) per row of the output"""
     pol.eval()
     with torch.no_grad():
         out = pol(env.reset(td.clone()), env, decode_type="greedy")
+        own = pol(env.reset(td.clone()), env, phase="test")
     B = td.batch_size[0]
-    return [[int(x) for x in out["actions"][b].reshape(-1).tolist()] for b in range(B)], \
-           [bits(x) for x in out["reward"].reshape(-1).tolist()]
+    acts = [[int(x) for x in out["actions"][b].reshape(-1).tolist()] for b in range(B)]
+    rews = [bits(x) for x in out["reward"].reshape(-1).tolist()]
+    # the own-phase output may have several rows per instance (multi-start): rows b, b + B, ... belong to instance b
+    for b in range(B):
+        rows = list(range(b, own["actions"].shape[0], B))
+        acts[b] = acts[b] + [-1] + [int(x) for r in rows for x in own["actions"][r].reshape(-1).tolist()] \
+            + [-2] + [bits(float(own["reward"][r])) for r in rows]
+    return acts, rews
 
 
 def rollout_policy_of(bl):
